@@ -1,5 +1,7 @@
 import PhyVerif.Model.C04
 import PhyVerif.Lemmas.C04
+import PhyVerif.Model.C04b
+import PhyVerif.Lemmas.C04b
 /-!
 # C04 — loading a dataset reproduces its files under every supported layout
 Only property theorems + non-vacuity examples; proofs in `Lemmas/C04.lean`.
@@ -53,6 +55,24 @@ theorem clusters_default (inv : Arr → Arr) (d : Dir) (v : View) (d' : Dir) (h 
     ∃ f, findPath d ["spike_templates.npy", "spikes.templates*.npy"] = some f ∧
       d'.lookup "spike_clusters.npy" = d.lookup f :=
   Lemmas.clusters_default inv d v d' h hn
+
+/-- Layout independence: a directory holding only KiloSort/phy-named arrays (NaN-free spike samples)
+and the ALF-named directory holding the same arrays (plus any non-decreasing spike times in seconds)
+load to the same samples, amplitudes, templates, clusters, channel tables, waveforms and matrices;
+only the time source differs (stored seconds instead of samples over rate). -/
+theorem load_layout_independent (inv : Arr → Arr) (d : Dir) (t : Arr)
+    (hks : ∀ n ∈ d.map (·.1), n ∈ ksNames)
+    (hs : ∀ s, d.lookup "spike_times.npy" = some s → allNum s = true)
+    (ht : monotone (scrub t).data = true)
+    (v : View) (d' : Dir) (h : load inv d = .ok (v, d')) :
+    ∃ v' d'', load inv (toALF d t) = .ok (v', d'') ∧
+      v'.times = .stored (squeeze (scrub t)) ∧ v'.samples = v.samples ∧
+      v'.amplitudes = v.amplitudes ∧ v'.spikeTemplates = v.spikeTemplates ∧
+      v'.spikeClusters = v.spikeClusters ∧ v'.channelMap = v.channelMap ∧
+      v'.channelPositions = v.channelPositions ∧ v'.channelShanks = v.channelShanks ∧
+      v'.channelProbes = v.channelProbes ∧ v'.templates = v.templates ∧
+      v'.templateCols = v.templateCols ∧ v'.wm = v.wm ∧ v'.wmi = v.wmi ∧ v'.similar = v.similar :=
+  Lemmas.load_layout_independent inv d t hks hs ht v d' h
 
 /-! Non-vacuity -/
 example :
